@@ -37,8 +37,14 @@ for i in ids:
     json.dump(meta, open(f'{V}/seeded/{i}/meta.json', 'w'), indent=1)
     rows.append((i, prop, verdict, sigs[0] if sigs else '', am.get('summary', '')[:140]))
     print(i, verdict, sigs[:1], flush=True)
-if not only:
-    with open(f'{V}/seeded/RESULTS.md', 'w') as f:
-        f.write('# Seeded changes and which check catches them\n\n| id | property | quick check verdict | first signature | change |\n|---|---|---|---|---|\n')
-        for r in rows:
-            f.write('| %s | %s | %s | `%s` | %s |\n' % tuple(x.replace('|', '/') for x in r))
+# RESULTS.md is always rebuilt from every meta.json present
+with open(f'{V}/seeded/RESULTS.md', 'w') as f:
+    f.write('# Seeded changes and which check catches them\n\nRounds: `-m1/-m2` round 1, `-r2` round 2 (agents were told the checker\'s workload), `-m3/-m4` round 3. See DESIGN.md 10.5.\n\n| id | property | quick check verdict | first signature | change |\n|---|---|---|---|---|\n')
+    for i in ids:
+        try:
+            m = json.load(open(f'{V}/seeded/{i}/meta.json'))
+        except Exception:
+            f.write('| %s | %s | (not run yet) | | |\n' % (i, i.split('-')[0]))
+            continue
+        sig = (m.get('first_signatures') or [''])[0]
+        f.write('| %s | %s | %s | `%s` | %s |\n' % tuple(str(x).replace('|', '/') for x in (i, m['property'], m['verdict_of_quick_check'], sig, m.get('summary', '')[:140])))
